@@ -276,6 +276,10 @@ pub enum Family {
     FanPair,
     /// comb: spine s0 -> s1 -> ... -> sk, every spine node with a pendant leaf
     Comb,
+    /// two fans of different depth: p1 -> c1..ck ; p2 -> m1 -> m2 -> d1..d(k+2)
+    DeepFanPair,
+    /// k roots r0..r(k-1) -> s, and r0 -> l1..l(k-1)
+    FanInOut,
     /// complete DAG on k nodes next to an independent chain of k nodes
     CompletePlusChain,
     /// w-wide layered graph with k layers next to an independent chain of k nodes
@@ -341,6 +345,25 @@ pub fn family(f: Family, k: usize) -> (usize, Vec<(usize, usize)>) {
             }
             (3 + 2 * k, e)
         }
+        Family::DeepFanPair => {
+            // 0 = p2, 1 = m1, 2 = m2, 3 = p1, 4..4+k = c, 4+k..4+2k+2 = d
+            let mut e = vec![(0, 1), (1, 2)];
+            for i in 0..k {
+                e.push((3, 4 + i));
+            }
+            for i in 0..k + 2 {
+                e.push((2, 4 + k + i));
+            }
+            (2 * k + 6, e)
+        }
+        Family::FanInOut => {
+            // roots 0..k, sink k, leaves k+1..2k
+            let mut e: Vec<(usize, usize)> = (0..k).map(|i| (i, k)).collect();
+            for i in 1..k {
+                e.push((0, k + i));
+            }
+            (2 * k, e)
+        }
         Family::CompletePlusChain => {
             let mut e: Vec<(usize, usize)> = (0..k).flat_map(|i| (i + 1..k).map(move |j| (i, j))).collect();
             e.extend((1..k).map(|i| (k + i - 1, k + i)));
@@ -388,4 +411,60 @@ pub fn topo_dag_specs(n: usize) -> Vec<Spec> {
             Spec::plain(n, &e)
         })
         .collect()
+}
+
+/// A maximum antichain of the DAG (Dilworth / Koenig): a largest set of functions no two of which
+/// are ordered. These are the functions that can all be in flight (or held) at the same time.
+pub fn max_antichain(n: usize, edges: &[(usize, usize)]) -> Vec<bool> {
+    use crate::mask::{closure_m, BigMask, Mask};
+    let reach: Vec<BigMask> = closure_m(n, edges);
+    let adj: Vec<Vec<usize>> = (0..n).map(|i| reach[i].list()).collect();
+    // maximum bipartite matching L(i) - R(j) for i reaches j
+    let mut match_r: Vec<Option<usize>> = vec![None; n];
+    let mut match_l: Vec<Option<usize>> = vec![None; n];
+    fn try_aug(u: usize, adj: &[Vec<usize>], seen: &mut [bool], match_r: &mut [Option<usize>], match_l: &mut [Option<usize>]) -> bool {
+        for &v in &adj[u] {
+            if seen[v] {
+                continue;
+            }
+            seen[v] = true;
+            if match_r[v].is_none() || try_aug(match_r[v].unwrap(), adj, seen, match_r, match_l) {
+                match_r[v] = Some(u);
+                match_l[u] = Some(v);
+                return true;
+            }
+        }
+        false
+    }
+    for u in 0..n {
+        let mut seen = vec![false; n];
+        try_aug(u, &adj, &mut seen, &mut match_r, &mut match_l);
+    }
+    // Koenig: Z = vertices reachable by alternating paths from unmatched left vertices
+    let mut zl = vec![false; n];
+    let mut zr = vec![false; n];
+    let mut stack: Vec<usize> = (0..n).filter(|&u| match_l[u].is_none()).collect();
+    for &u in &stack {
+        zl[u] = true;
+    }
+    while let Some(u) = stack.pop() {
+        for &v in &adj[u] {
+            if !zr[v] {
+                zr[v] = true;
+                if let Some(w) = match_r[v] {
+                    if !zl[w] {
+                        zl[w] = true;
+                        stack.push(w);
+                    }
+                }
+            }
+        }
+    }
+    // minimum vertex cover = (L \ Z) + (R & Z); antichain = vertices with neither copy in the cover
+    let a: Vec<bool> = (0..n).map(|i| zl[i] && !zr[i]).collect();
+    debug_assert!({
+        let idx: Vec<usize> = (0..n).filter(|&i| a[i]).collect();
+        idx.iter().all(|&i| idx.iter().all(|&j| !reach[i].get(j)))
+    });
+    a
 }
